@@ -756,15 +756,24 @@ class Conv:
                 ok = self.oracle.implied_nonneg(inner - self.const(lo))
             if ok and hi is not None:
                 ok = self.oracle.implied_nonneg(self.const(hi) - inner)
-            if not ok:
-                if not getattr(self, "assume_clamp", False):
-                    raise Unsupported("clamp whose argument is not provably inside its range")
+            if ok:
+                r = inner
+            elif getattr(self, "assume_clamp", False):
                 if not hasattr(self, "clamp_assumed"):
                     self.clamp_assumed = []
                 self.clamp_assumed.append(
                     "clamp to [%s, %s] assumed inactive for %s" % (lo and float(lo), hi and float(hi), repr(x.args[0])[:120])
                 )
-            r = inner
+                r = inner
+            else:
+                # a clamp that can be active for some parameter values: an opaque real K (lo <= K <= hi, K == argument inside the
+                # range).  Goals through it leave a residual; the solver layer then looks for a parameter point where the clamp IS
+                # active (targeted search, Problem._clamp_points) and decides the goal there.
+                if not hasattr(self, "clamp_nodes"):
+                    self.clamp_nodes = []
+                self.clamp_nodes.append(x)
+                i = self._opaque_var("K", x, [inner, self.const(lo if lo is not None else 0), self.const(hi if hi is not None else 0)])
+                r = Frac(Fraction(1), self.ring.gen(i))
         else:
             raise Unsupported(op)
         self.cache[x] = r
